@@ -9,6 +9,7 @@ let () = iter_lines (fun l ->
   | ["O"; "P"; size; loop] -> ops := Play (nat_of_int (int_of_string size), nat_of_int (int_of_string loop)) :: !ops
   | ["O"; "R"] -> ops := Reset :: !ops
   | ["O"; "S"] -> ops := Stop :: !ops
+  | ["O"; "E"] -> ops := Restart (List.rev !frames) :: !ops
   | ["GO"] ->
       let x = { rest = []; src = List.rev !frames; cur_loop = O } in
       List.iter (fun ((r, o), n) ->
